@@ -256,7 +256,9 @@ _mtbl_sorter_write_chunk(struct entry_batch *b)
 	if (res != mtbl_res_success)
 		return (NULL);
 
-	return (mtbl_reader_init_fd(fd, NULL));
+	struct mtbl_reader *r = mtbl_reader_init_fd(fd, NULL);
+	close(fd);
+	return (r);
 }
 
 mtbl_res
